@@ -8,7 +8,7 @@ meta = json.load(open(os.path.join(ROOT, "tools", "manifest_meta.json")))
 all_ids = [json.loads(l)["id"] for l in open(os.path.join(ROOT, "properties.jsonl"))]
 checks = []
 for pid in all_ids:
-    if pid not in props or not props[pid].get("claimed", True):
+    if pid not in props or not props[pid].get("integrated", False):
         continue
     m = props[pid]
     checks.append({
